@@ -73,7 +73,8 @@ type c05Conn struct {
 	dl     time.Time
 	dlCh   chan struct{}
 	closed bool
-	eofN   int // consecutive EOF reads
+	eofN   int       // EOF reads in a row at one virtual instant
+	eofAt  time.Time // instant of the last EOF read
 	local  net.Addr
 	remote net.Addr
 }
@@ -116,7 +117,6 @@ func (c *c05Conn) Read(p []byte) (int, error) {
 				c.rd.q = c.rd.q[1:]
 			}
 			c.rd.mu.Unlock()
-			c.eofN = 0
 			return n, nil
 		}
 		if c.rd.rst {
@@ -125,7 +125,11 @@ func (c *c05Conn) Read(p []byte) (int, error) {
 		}
 		if c.rd.eof {
 			c.rd.mu.Unlock()
-			c.eofN++
+			if now := time.Now(); now.Equal(c.eofAt) {
+				c.eofN++
+			} else {
+				c.eofN, c.eofAt = 1, now
+			}
 			if c.eofN >= 3 {
 				// a caller spinning on EOF (the sniffer's need-more loop does) must let virtual
 				// time advance: burn 50 µs, but never sleep across an armed deadline.
@@ -136,10 +140,10 @@ func (c *c05Conn) Read(p []byte) (int, error) {
 				if d > 0 {
 					time.Sleep(d)
 				}
-				continue0 := !dl.IsZero() && !time.Now().Before(dl)
-				if continue0 {
+				if !dl.IsZero() && !time.Now().Before(dl) {
 					return 0, &net.OpError{Op: "read", Net: "tcp", Err: c05Timeout{}}
 				}
+				c.eofAt = time.Now()
 			}
 			return 0, io.EOF
 		}
